@@ -605,7 +605,7 @@ func nativeReplay(path string, kind string) (string, string) {
 	ovb, _ := json.Marshal(map[string]interface{}{"Replace": repl})
 	ovf := filepath.Join(tmp, "overlay.json")
 	os.WriteFile(ovf, ovb, 0o644)
-	cmd := exec.Command("go", "test", "-vet=off", "-count=1", "-timeout", "60s", "-overlay", ovf, "-run", "^TestVfReplay$", "./"+rf.Pkg)
+	cmd := exec.Command("go", "test", "-vet=off", "-count=1", "-timeout", "25s", "-overlay", ovf, "-run", "^TestVfReplay$", "./"+rf.Pkg)
 	cmd.Dir = repoDir
 	cmd.Env = append(os.Environ(), "GOFLAGS=-mod=mod", "GOPROXY=off", "GOSUMDB=off", "GOTOOLCHAIN=local", "VF_REPLAY="+path)
 	out, _ := cmd.CombinedOutput()
